@@ -138,7 +138,7 @@ func launderJobs(w *world) []job {
 				}
 				rc.view = v
 				rc.victim = main.Blocks[:s]
-				rc.pre = func(c *vh.Case, reg *netx.Reg, victim *netx.Node, ip string) {
+				rc.pre = func(c *vh.Case, reg *netx.Reg, victim *netx.Node, ip string, flush func()) {
 					own := netx.ViewOf(main)
 					own.Blocks, own.States = own.Blocks[:s], own.States[:s]
 					dec, err := outlineRelay(nt, victim, own, ip+".3", gateway.OutlineBlock(x, nil, nil))
@@ -175,6 +175,60 @@ func launderJobs(w *world) []job {
 			f.MineN(5, time.Second, 0xE5)
 			rc.view = netx.ViewOf(f)
 			rc.victim = main.Blocks[:s]
+			return rc.run(ip)
+		}})
+	}
+	return jobs
+}
+
+// redeliveryJobs: "still syncs to the heaviest chain offered by its honest peers" after a failed
+// attempt. Below the require height a first peer serves a valid branch with one invalid block on
+// top (valid header and ValidateOrphan, invalid transaction): AddBlocks stores everything, applies
+// the branch (every applied block now has a supplement), fails at the last block, rolls back and
+// the peer is reported. An honest peer then serves the valid branch alone: every block of the
+// batch is already stored, and the victim must adopt it all the same.
+func redeliveryJobs(w *world) []job {
+	var jobs []job
+	nt := w.nt
+	main := w.main
+	for _, x := range []struct{ vs, k int }{{4, 8}, {0, 5}, {2, 9}} {
+		x := x
+		name := fmt.Sprintf("valid-prefix-redelivered-after-failed-reorg-%d-%d", x.vs, x.k)
+		rc := &roundCase{name: name, tags: []string{"kind:honest-after-byzantine", "regime:v1-addblocks", "two-step:round-then-round", "redelivery:all-blocks-stored"},
+			w: w, tie: true, honest: true}
+		jobs = append(jobs, job{name: name, quick: true, run: func(ip string) *vh.Case {
+			bad := types.V2Transaction{SiacoinOutputs: []types.SiacoinOutput{{Value: types.Siacoins(7), Address: types.Address{9}}}}
+			evil := bogusView(w, main, x.k, func(b *types.Block, cs consensus.State) {
+				if b.V2 != nil {
+					b.V2.Transactions = []types.V2Transaction{bad}
+					b.V2.Commitment = cs.Commitment(b.MinerPayouts[0].Address, nil, b.V2.Transactions)
+				} else {
+					b.Transactions = []types.Transaction{{SiacoinOutputs: []types.SiacoinOutput{{Value: types.Siacoins(7), Address: types.Address{9}}}}}
+				}
+			}, 0, 0xE7)
+			good := netx.ViewOf(main)
+			good.Blocks, good.States = good.Blocks[:x.k], good.States[:x.k]
+			rc.victim = main.Blocks[:x.vs]
+			rc.view = good
+			rc.pre = func(c *vh.Case, reg *netx.Reg, victim *netx.Node, ip string, flush func()) {
+				for _, b := range evil.Blocks {
+					reg.AddBlock(b)
+				}
+				s := newSession(nt, reg, evil, script{}, victim)
+				bz, out, err := s.run(ip + ".3")
+				if err != nil {
+					c.Oracle("harness-connect", "first scripted peer could not connect: %v", err)
+					return
+				}
+				op := s.opLine()
+				flush()
+				c.Op(op, out.line())
+				if out.dec != "ban" {
+					c.Oracle("misbehaviour-not-banned:invalid-block-on-valid-branch", "a peer delivered a valid branch with an invalid block on top and was not reported (decision %s)", out.dec)
+				}
+				close(s.hold)
+				bz.Close()
+			}
 			return rc.run(ip)
 		}})
 	}
